@@ -61,6 +61,12 @@ theorem loop_inp (P : Nat → Body) (s : State) (i : Nat) (vis : List Dep) (h : 
   rw [Nat.add_comm, List.append_nil]
   simp only [accLoop, h, if_false]
 
+theorem loopSpec_of_eq {P : Nat → Body} {visit : VisitFn} {s d vis} {t : State × List Dep × List Nat}
+    (e : visit s d vis = t)
+    (h : ∃ n, ∀ m rest out, accLoop P (n + m) s (d :: rest) vis out = accLoop P m t.1 rest t.2.1 (out ++ t.2.2)) :
+    LoopSpec P visit s d vis := by
+  unfold LoopSpec; rw [e]; exact h
+
 /-- **the recursive search is the explicit-stack loop** -/
 theorem loop_visit {P : Nat → Body} (hP : Wf P) : ∀ r s d vis, Inv P s → (∀ k, d = .qry k → k < r) →
     Inv P (accVisit P r s d vis).1 ∧ LoopSpec P (accVisit P r) s d vis := by
@@ -72,58 +78,62 @@ theorem loop_visit {P : Nat → Body} (hP : Wf P) : ∀ r s d vis, Inv P s → (
     | qry k => exact absurd (hlt k rfl) (Nat.not_lt_zero k)
     | inp i =>
       by_cases hmem : Dep.inp i ∈ vis
-      · simp only [accVisit, hmem, if_true]
-        exact ⟨hI, 1, fun m rest out => loop_skip P s _ vis hmem m rest out⟩
-      · simp only [accVisit, hmem, if_false]
-        exact ⟨hI, 1, fun m rest out => loop_inp P s i vis hmem m rest out⟩
+      · have e : accVisit P 0 s (.inp i) vis = (s, vis, []) := by simp [accVisit, hmem]
+        exact ⟨by rw [e]; exact hI, loopSpec_of_eq e ⟨1, fun m rest out => loop_skip P s _ vis hmem m rest out⟩⟩
+      · have e : accVisit P 0 s (.inp i) vis = (s, .inp i :: vis, []) := by simp [accVisit, hmem]
+        exact ⟨by rw [e]; exact hI, loopSpec_of_eq e ⟨1, fun m rest out => loop_inp P s i vis hmem m rest out⟩⟩
   | succ r ih =>
     intro s d vis hI hlt
     by_cases hmem : d ∈ vis
-    · simp only [accVisit, hmem, if_true]
-      exact ⟨hI, 1, fun m rest out => loop_skip P s _ vis hmem m rest out⟩
+    · have e : accVisit P (r + 1) s d vis = (s, vis, []) := by simp [accVisit, hmem]
+      exact ⟨by rw [e]; exact hI, loopSpec_of_eq e ⟨1, fun m rest out => loop_skip P s _ vis hmem m rest out⟩⟩
     · cases d with
       | inp i =>
-        simp only [accVisit, hmem, if_false]
-        exact ⟨hI, 1, fun m rest out => loop_inp P s i vis hmem m rest out⟩
+        have e : accVisit P (r + 1) s (.inp i) vis = (s, .inp i :: vis, []) := by simp [accVisit, hmem]
+        exact ⟨by rw [e]; exact hI, loopSpec_of_eq e ⟨1, fun m rest out => loop_inp P s i vis hmem m rest out⟩⟩
       | qry k =>
         by_cases hk : k < r
         · have e : accVisit P (r + 1) s (.qry k) vis = accVisit P r s (.qry k) vis := by
             simp [accVisit, hmem, hk]
-          simp only [LoopSpec, e]
-          exact ih s (.qry k) vis hI (fun k' hd => by cases hd; exact hk)
+          obtain ⟨a1, a2⟩ := ih s (.qry k) vis hI (fun k' hd => by cases hd; exact hk)
+          exact ⟨by rw [e]; exact a1, loopSpec_of_eq e a2⟩
         · have hkr : k = r := by have := hlt k rfl; omega
           subst hkr
           have hIf : Inv P ((eng P (k + 1)).1 s k).1 :=
             ((eng_ok hP (k + 1)).1.ok s k (Nat.lt_succ_self k) hI).1
           have hfe : fetch P s k = (eng P (k + 1)).1 s k := rfl
-          simp only [LoopSpec, accVisit, hmem, if_false, Nat.lt_irrefl, if_true]
           generalize hf : (eng P (k + 1)).1 s k = f at hIf hfe
           cases hm : f.1.memos k with
           | none =>
-            simp only
-            refine ⟨hIf, 1, ?_⟩
+            have e : accVisit P (k + 1) s (.qry k) vis = (f.1, .qry k :: vis, []) := by
+              simp [accVisit, hmem, hf, hm]
+            refine ⟨by rw [e]; exact hIf, loopSpec_of_eq e ⟨1, ?_⟩⟩
             intro m rest out
             rw [Nat.add_comm, List.append_nil]
             simp only [accLoop, hmem, if_false, hfe, hm]
           | some mm =>
-            simp only
             cases hai : mm.accIn with
             | false =>
-              simp only [Bool.false_eq_true, if_false]
-              refine ⟨hIf, 1, ?_⟩
+              have e : accVisit P (k + 1) s (.qry k) vis = (f.1, .qry k :: vis, mm.acc) := by
+                simp [accVisit, hmem, hf, hm, hai]
+              refine ⟨by rw [e]; exact hIf, loopSpec_of_eq e ⟨1, ?_⟩⟩
               intro m rest out
               rw [Nat.add_comm]
               simp only [accLoop, hmem, if_false, hfe, hm, hai, Bool.false_eq_true]
             | true =>
-              simp only [if_true]
+              have e : accVisit P (k + 1) s (.qry k) vis =
+                  ((accVisitEdges (accVisit P k) mm.obs f.1 (.qry k :: vis)).1,
+                   (accVisitEdges (accVisit P k) mm.obs f.1 (.qry k :: vis)).2.1,
+                   mm.acc ++ (accVisitEdges (accVisit P k) mm.obs f.1 (.qry k :: vis)).2.2) := by
+                simp [accVisit, hmem, hf, hm, hai]
               have hch : ∀ o c, o ∈ mm.obs → o.dep = .qry c → c < k :=
                 fun o c ho hd => ((hIf.memo k mm hm).i5 o c ho hd).1
               obtain ⟨hI2, n, h2⟩ := loop_edges (P := P) (r := k) (visit := accVisit P k) ih mm.obs f.1
                 (.qry k :: vis) hIf hch
-              refine ⟨hI2, n + 1, ?_⟩
+              refine ⟨by rw [e]; exact hI2, loopSpec_of_eq e ⟨n + 1, ?_⟩⟩
               intro m rest out
-              have e : n + 1 + m = (n + m) + 1 := by omega
-              rw [e]
+              have e' : n + 1 + m = (n + m) + 1 := by omega
+              rw [e']
               simp only [accLoop, hmem, if_false, hfe, hm, hai, if_true]
               rw [inputs_eq, h2, List.append_assoc]
 
